@@ -160,6 +160,9 @@ pub uninterp spec fn until_function(l: Seq<VString>) -> Seq<VString>;
 #[verifier::external_body] pub fn run_bridge(ctx: &mut Ctx, b: &BridgeV, cb: &JumpCb) -> (r: Result<(), VErr>)
     ensures frame_labels(&final(ctx).call_stack) == frame_labels(&old(ctx).call_stack), final(ctx).exit_state == old(ctx).exit_state { unimplemented!() }
 pub enum Step { Returned(ReturnValue), Next(usize) }
+pub struct Instr { pub id: u8 }
+pub fn instr_get(v: &Vec<Instr>, i: usize) -> (r: Option<&Instr>) ensures i < v@.len() ==> r == Some(&v@[i as int]), i >= v@.len() ==> r is None { if i < v.len() { Some(&v[i]) } else { None } }
+pub mod opcode { OPCODE_CONSTS }
 // `(instruction_ptr as isize + offset) as usize` in the dev profile: the sum is overflow-checked, the cast back wraps
 pub open spec fn goto_target(ptr: usize, off: isize) -> int { ptr as int + off as int }
 impl Ctx {
@@ -211,6 +214,10 @@ def build_step(repo):
              "let new_val = wrap_usize ( instruction_ptr as isize + offset ) ;", count="+", why="the isize addition is kept (Verus checks it for overflow as the dev profile does); `as usize` of a negative isize wraps modulo 2^64 (Rust cast semantics, assumed)"),
         Rule("R10", "current_frame . borrow_mut ( ) . pop_until_function ( ) ;", "pop_until_function ( context ) ;", why="Rc<RefCell<Stack>> shared with the context: the call stack is a field of the model context"),
         Rule("R1", "return Ok ( ret . clone ( ) ) ;", "return Ok ( Step :: Returned ( clone_rv ( ret ) ) ) ;", count=1, why="the step function returns what the loop would: the function's return value, or the next instruction pointer"),
+        Rule("R1", "return Ok ( $$e ) ;", lambda b: None if (b["e"] and b["e"][0] == "Step") else "return Ok ( Step :: Returned ( " + text(b["e"]) + " ) ) ;", why="any other `return Ok(v)` of the loop: the function's return value"),
+        Rule("R9", "self . instructions . get ( $$i ) . is_some_and ( | $x | $$p )", "( match instr_get ( instrs , $$i ) { Some ( $x ) => $$p , None => false } )", why="slice::get + Option::is_some_and -> match"),
+        Rule("R1", "self . instructions [ $$i ]", "instrs [ $$i ]", why="the function's instruction array as a parameter of the fragment"),
+        Rule("R1", "id :: $c", "opcode :: $c", why="opcode constants of instruction_constants.rs"),
         Rule("R6", "jump_callback ( jump_request ) ?", "jump_callback_call ( jump_callback , jump_request ) ?", why="jump callback abstract (runs another function / module / library call)"),
         Rule("R1", "context . add_frame ( Cow :: Borrowed ( ty . identity_str ( ) ) ) ;", "context . add_frame ( scope_label ( ty ) ) ;", why="frame label text"),
         Rule("R7", "( * offset ) . try_into ( ) ?", "usize_to_isize ( * offset ) ?", why="usize -> isize conversion"),
@@ -235,7 +242,7 @@ def build_step(repo):
         prelude("ctx.rs").replace("ReturnValue(Box<Primitive>)", "ReturnValue(ReturnValue), GotoPushScope(usize, SpecialScope)") + \
         "#[verifier::external_body] pub fn copy_scope(t: &SpecialScope) -> (r: SpecialScope) ensures r == *t { unimplemented!() }\n" + \
         "#[verifier::external_body] pub fn usize_to_isize(x: usize) -> (r: Result<isize, VErr>) ensures r is Ok ==> r->Ok_0 as int == x as int { unimplemented!() }\n" + \
-        ctx + STEP_SPEC.replace("CLEAR_SIGNAL", render(cs, 0)) + f"""
+        ctx + STEP_SPEC.replace("CLEAR_SIGNAL", render(cs, 0)).replace("OPCODE_CONSTS", " ".join(f"pub const {k.upper()}: u8 = {v};" for k, v in opcode_ids(repo).items())) + f"""
 // depth of the frame stack after the step, by exit state (what the compile-side layouts assume of the interpreter)
 pub open spec fn frames_after(e: Exit, before: Seq<VString>, scopes_before: Seq<SpecialScope>) -> int {{
     match e {{
@@ -269,9 +276,9 @@ pub open spec fn next_ok(ret: Exit, c0: Ctx, s0: Seq<SpecialScope>, ptr_in: usiz
 
 //@ OBL C01.run.step
 #[verifier::loop_isolation(false)]
-pub fn run_step(ret: &Exit, context: &mut Ctx, ptr_in: usize, instruction_len: usize, special_scopes: &mut Vec<SpecialScope>, jump_callback: &JumpCb) -> (r: Result<Step, VErr>)
+pub fn run_step(ret: &Exit, context: &mut Ctx, ptr_in: usize, instruction_len: usize, special_scopes: &mut Vec<SpecialScope>, jump_callback: &JumpCb, instrs: &Vec<Instr>) -> (r: Result<Step, VErr>)
     requires
-        ptr_in < instruction_len, instruction_len <= isize::MAX,
+        ptr_in < instruction_len, instruction_len <= isize::MAX, instrs@.len() == instruction_len,
         // offsets are those of compiled code: ptr + offset does not overflow isize (a hand-written offset near isize::MAX would
         // panic in the dev profile: outside what is claimed)
         (*ret matches Exit::Goto(off) ==> goto_target(ptr_in, off) <= isize::MAX),
